@@ -345,12 +345,14 @@ func (c *GSCall) EndedBy(step int) bool {
 // DescribeFor lists the model's requests carrying tid (debugging aid for oracle messages).
 func (g *GS) DescribeFor(tid datatransfer.TransferID) string {
 	out := ""
-	for _, r := range g.out {
+	for _, id := range sortedBy(g.out, func(i graphsync.RequestID) string { return i.String() }) {
+		r := g.out[id]
 		if m := dtOf(r.exts); m != nil && m.TransferID() == tid {
 			out += fmt.Sprintf("out{id=%s state=%d sent=%v inc=%d traversed=%d remoteDone=%v pauseReq=%v} ", r.id.String()[30:], r.state, r.sent, r.inc, r.traversed, r.remoteDone, r.pauseReq)
 		}
 	}
-	for _, x := range g.in {
+	for _, id := range sortedBy(g.in, func(i graphsync.RequestID) string { return i.String() }) {
+		x := g.in[id]
 		if m := dtOf(x.req.exts); m != nil && m.TransferID() == tid {
 			out += fmt.Sprintf("in{id=%s state=%d inc=%d pos=%d pauseSig=%v errSig=%v stepping=%v} ", x.id.String()[30:], x.state, x.inc, x.pos, x.pauseSig, x.errSig, x.stepping)
 		}
@@ -361,21 +363,23 @@ func (g *GS) DescribeFor(tid datatransfer.TransferID) string {
 // ActiveFor reports whether a live (not finished, not requester-cancelled) graphsync request carries the
 // data-transfer id tid on this endpoint.
 func (g *GS) ActiveFor(tid datatransfer.TransferID) bool {
+	// (no early exit and no dependence on map order: determinism)
+	found := false
 	for _, r := range g.out {
 		if r.state != outDone {
 			if m := dtOf(r.exts); m != nil && m.TransferID() == tid {
-				return true
+				found = true
 			}
 		}
 	}
 	for _, x := range g.in {
 		if x.state != inCompleting {
 			if m := dtOf(x.req.exts); m != nil && m.TransferID() == tid {
-				return true
+				found = true
 			}
 		}
 	}
-	return false
+	return found
 }
 
 func (g *GS) logCall(c GSCall) int {
